@@ -448,7 +448,24 @@ impl Scenario for Dc {
         // when nothing else happens to the connection: an application close - also right after the cause -
         // legitimately replaces or suppresses the packet, a peer DISCONNECT forbids it.
         let benign = |i: &Ini| matches!(i, Ini::Pub1 | Ini::Sub | Ini::Ping | Ini::HOk | Ini::POk);
-        if d.is_empty() && self.cfg.ep.ctl == crate::world::CtlMode::None && self.cfg.ep.role == Role::Server && self.done.iter().all(|i| benign(i) || (i.dedicated().is_some() && *i != Ini::KeepAlive)) {
+        let only_dedicated = self.cfg.ep.ctl == crate::world::CtlMode::None && self.cfg.ep.role == Role::Server && self.done.iter().all(|i| benign(i) || (i.dedicated().is_some() && *i != Ini::KeepAlive));
+        // ... and it is the code of the *first* such cause: packets are decoded in order and the first violation ends
+        // the connection, what the peer sent after it is never looked at (a mutation-sweep survivor switched the
+        // retain-available flag off: a retained PUBLISH was accepted, and every explored sequence went on to another
+        // violation whose DISCONNECT made the run look fine)
+        if only_dedicated {
+            if let (Some((_, code, _)), Some(first)) = (d.first(), self.done.iter().find(|i| !benign(i))) {
+                // (a publish that breaks a rule while the receive quota is already used up has two causes at once)
+                if Some(*code) != first.dedicated() && !(*code == 0x93 && self.allowed.contains(&0x93)) {
+                    return Err(Violation::new(
+                        "wrong-reason-code",
+                        self.wit(&format!("first cause {first:?} -> {code:#x}")),
+                        format!("DISCONNECT({code:#x}) but the first cause, {first:?}, has the dedicated code {:#x}: {}", first.dedicated().unwrap_or(0), self.detail()),
+                    ));
+                }
+            }
+        }
+        if d.is_empty() && only_dedicated {
             let first = self.done.iter().find(|i| !benign(i));
             if let Some(code) = first.and_then(|f| f.dedicated()) {
                 return Err(Violation::new(
